@@ -325,25 +325,26 @@ Proof.
   destruct (mem_str k checked_value_props) eqn:Em.
   - destruct (p_dt p) as [d|] eqn:Ed.
     + destruct (conv d v) as [c|e] eqn:Ecv.
-      * intros H. apply param_setprop_inv in H. destruct H as [H1 [H2 H3]]. repeat split; try assumption.
+      * intros H. apply param_setprop_inv in H. destruct H as [H1 [H2 H3]]. split; [exact H1|split; [exact H2|split; [exact H3|]]].
         intros _ d0 Hd. inversion Hd; subst. exists c. exact Ecv.
       * destruct (is_bad_value e); discriminate.
-    + intros H. apply param_setprop_inv in H. destruct H as [H1 [H2 H3]]. repeat split; try assumption. intros _ d0 Hd. discriminate.
-  - intros H. apply param_setprop_inv in H. destruct H as [H1 [H2 H3]]. repeat split; try assumption. intros; discriminate.
+    + intros H. apply param_setprop_inv in H. destruct H as [H1 [H2 H3]]. split; [exact H1|split; [exact H2|split; [exact H3|]]]. intros _ d0 Hd. discriminate.
+  - intros H. apply param_setprop_inv in H. destruct H as [H1 [H2 H3]]. split; [exact H1|split; [exact H2|split; [exact H3|]]]. intros; discriminate.
 Qed.
 
 (* the whole entry *)
+Lemma apply_entry_keep_cons p kv r :
+  apply_entry_keep p (kv :: r) = match prop_step (PGo p) kv with PGo p' => apply_entry_keep p' r | x => (p, x) end.
+Proof. reflexivity. Qed.
 Lemma entry_inv : forall en p p1, p_iscmd p = false -> apply_entry_keep p en = (p1, PGo p1) ->
   keeps p p1 /\
   (forall k v d, In (k, v) en -> mem_str k checked_value_props = true -> p_dt p = Some d -> exists c, conv d v = Ok c) /\
   (~ In k_value (map fst en) -> p_value p1 = p_value p) /\
   (forall v, NoDup (map fst en) -> In (k_value, v) en -> p_value p1 = Some v).
 Proof.
-  induction en as [|[k v] en IH]; intros p p1 Hc H; simpl in H.
+  induction en as [|[k v] en IH]; intros p p1 Hc H; [simpl in H|rewrite apply_entry_keep_cons in H].
   - inversion H; subst. split; [apply keeps_refl|]. split; [intros ? ? ? []|]. split; [reflexivity|intros ? ? []].
-  - destruct (prop_step (PGo p) (k, v)) as [| |p'] eqn:Es; try (inversion H; discriminate).
-    + inversion H. subst p1. discriminate.
-    + inversion H.
+  - destruct (prop_step (PGo p) (k, v)) as [| |p'] eqn:Es; [inversion H|inversion H|].
     + destruct (prop_step_inv _ _ _ _ Hc Es) as [K [V0 [V1 Ck]]].
       assert (Hc' : p_iscmd p' = false) by (rewrite (k_cmd _ _ K); exact Hc).
       destruct (IH p' p1 Hc' H) as [K2 [C2 [N2 D2]]].
@@ -357,4 +358,295 @@ Proof.
       * intros v0 ND [Heq|Hin].
         -- inversion Heq; subst. simpl in ND. inversion ND; subst. rewrite N2; [|assumption]. apply V1. apply str_eqb_refl'.
         -- simpl in ND. inversion ND; subst. apply D2; assumption.
+Qed.
+
+(* ------------------------------------------------------------------ one accessible *)
+Lemma apply_entry_keep_go : forall en p pk p1, apply_entry_keep p en = (pk, PGo p1) -> pk = p1.
+Proof.
+  induction en as [|kv en IH]; intros p pk p1 H; [simpl in H; inversion H; reflexivity|].
+  rewrite apply_entry_keep_cons in H. destruct (prop_step (PGo p) kv) eqn:E; try (inversion H; fail). eapply IH; exact H.
+Qed.
+
+Lemma handle_writes_ok p p2 w : handle_writes p = (p2, [], w) ->
+  exists d, p_dt p = Some d /\ (p_needscfg p = true -> p_value p <> None) /\
+    p_dt p2 = Some d /\ p_name p2 = p_name p /\ p_iscmd p2 = p_iscmd p /\ p_descr p2 = p_descr p /\
+    match p_value p with
+    | Some v => p_value p2 = Some (match conv d v with Ok c => c | Err _ => v end) /\
+                w = (if p_has_write p then Some v else None)
+    | None => w = None
+    end.
+Proof.
+  unfold handle_writes. destruct (p_dt p) as [d|] eqn:Ed; [|discriminate].
+  destruct (p_value p) as [v|] eqn:Ev.
+  - intros H. inversion H; subst. exists d. simpl. repeat split; try reflexivity; try assumption. discriminate.
+  - destruct (p_needscfg p) eqn:En.
+    + destruct (p_default p); discriminate.
+    + destruct (p_default p); intros H; inversion H; subst; exists d; simpl; repeat split; try reflexivity; try assumption; discriminate.
+Qed.
+
+Definition p0_of (mexp : bool) (p : param) : param := if mexp then p else set_export p XFalse.
+Lemma p0_keeps mexp p : keeps p (p0_of mexp p) /\ p_value (p0_of mexp p) = p_value p /\ p_needscfg (p0_of mexp p) = p_needscfg p
+  /\ p_descr (p0_of mexp p) = p_descr p /\ p_dt (p0_of mexp p) = p_dt p.
+Proof. unfold p0_of. destruct mexp; simpl; repeat split; try reflexivity; apply conv_eq_refl. Qed.
+
+Lemma acc_step_ok mexp p e a : p_iscmd p = false -> acc_step mexp p e = Some a -> a_errs a = [] ->
+  exists p1, (match e with
+              | Some (CDict en) => apply_entry_keep (p0_of mexp p) en = (p1, PGo p1)
+              | None => p1 = p0_of mexp p
+              | Some (CRaw _) => False
+              end) /\
+             handle_writes p1 = (a_param a, [], a_write a).
+Proof.
+  intros Hc. unfold acc_step. fold (p0_of mexp p). set (p0 := p0_of mexp p).
+  assert (Hc0 : p_iscmd p0 = false) by (unfold p0; destruct (p0_keeps mexp p) as [K _]; rewrite (k_cmd _ _ K); exact Hc).
+  destruct e as [[v|en]|].
+  - discriminate.
+  - destruct (apply_entry_keep p0 en) as [pk r] eqn:E. destruct r as [|er|p1].
+    + discriminate.
+    + destruct (p_iscmd pk); [intros H; inversion H; subst; simpl; discriminate|].
+      destruct (handle_writes pk) as [[p2 es] w]. intros H; inversion H; subst; simpl; discriminate.
+    + pose proof (apply_entry_keep_go _ _ _ _ E). subst pk.
+      destruct (entry_inv _ _ _ Hc0 E) as [K _]. rewrite (k_cmd _ _ K), Hc0.
+      destruct (handle_writes p1) as [[p2 es] w] eqn:Eh. intros H; inversion H; subst; simpl. intros He; subst es.
+      exists p1. split; [reflexivity|exact Eh].
+  - rewrite Hc0. destruct (handle_writes p0) as [[p2 es] w] eqn:Eh. intros H; inversion H; subst; simpl. intros He; subst es.
+    exists p0. split; [reflexivity|exact Eh].
+Qed.
+
+Lemma finish_param_ok p y : p_iscmd p = false -> finish_param p = Some y ->
+  p_name y = p_name p /\ p_dt y = p_dt p /\ p_descr y = p_descr p /\ p_iscmd y = false /\
+  refit (p_dt p) (p_value p) = Some (p_value y).
+Proof.
+  intros Hc. unfold finish_param. rewrite Hc.
+  destruct (refit (p_dt p) (p_default p)) as [d'|]; [|discriminate].
+  destruct (refit (p_dt p) (p_value p)) as [v'|]; [|discriminate].
+  intros H; inversion H; subst; simpl. repeat split; try reflexivity; assumption.
+Qed.
+
+Lemma apply_main_keeps main p :
+  p_name (apply_main main p) = p_name p /\ p_dt (apply_main main p) = p_dt p /\ p_value (apply_main main p) = p_value p
+  /\ p_descr (apply_main main p) = p_descr p /\ p_iscmd (apply_main main p) = p_iscmd p /\ p_wfunc (apply_main main p) = p_wfunc p.
+Proof.
+  unfold apply_main. destruct main; [repeat split; reflexivity|].
+  destruct (p_dt p) eqn:E; [|repeat split; try reflexivity; try (symmetry; exact E); exact E].
+  destruct (negb (p_iscmd p) && carries_unit d && has_dollar (p_unit p)); simpl; repeat split; try reflexivity;
+    try (symmetry; exact E); exact E.
+Qed.
+
+(* from a class parameter to the parameter of the created instance *)
+Lemma created_param C c i p : mod_init C c = Created i -> In p (c_params C) -> p_optional p = false -> p_iscmd p = false ->
+  exists mv a p1 y p',
+    acc_step (mexport mv) p (assoc_str (p_name p) c) = Some a /\
+    (match assoc_str (p_name p) c with
+     | Some (CDict en) => apply_entry_keep (p0_of (mexport mv) p) en = (p1, PGo p1)
+     | None => p1 = p0_of (mexport mv) p
+     | Some (CRaw _) => False
+     end) /\
+    handle_writes p1 = (a_param a, [], a_write a) /\
+    finish_param (a_param a) = Some y /\ In p' (i_params i) /\
+    p_name p' = p_name y /\ p_dt p' = p_dt y /\ p_value p' = p_value y /\ p_descr p' = p_descr y /\ p_iscmd p' = p_iscmd y /\
+    check_param p' = [] /\
+    (forall v, a_write a = Some v -> In (p_name (a_param a), v) (i_write i)).
+Proof.
+  intros H Hin Ho Hc. destruct (created_inv _ _ _ H) as [mv [accs [ps [EA [EB [Eerr [EU [EF [ECm [ECp Ei]]]]]]]]]].
+  destruct (phaseB_in _ _ _ _ _ EB Hin Ho) as [a [Ha Hs]].
+  pose proof (flat_map_nil _ _ _ Eerr Ha) as Hae.
+  destruct (acc_step_ok _ _ _ _ Hc Hs Hae) as [p1 [He Hh]].
+  destruct (map_opt_in finish_param _ _ (a_param a) EF) as [y [Hy Hyin]]; [apply in_map; exact Ha|].
+  exists mv, a, p1, y, (apply_main (main_unit ps) y).
+  destruct (apply_main_keeps (main_unit ps) y) as [M1 [M2 [M3 [M4 [M5 M6]]]]].
+  subst i. simpl. repeat split; try assumption.
+  - apply in_map. exact Hyin.
+  - eapply flat_map_nil; [exact ECp|]. apply in_map. exact Hyin.
+  - intros v Hw. unfold writes_of. apply in_flat_map. exists a. split; [exact Ha|]. rewrite Hw. left. reflexivity.
+Qed.
+
+(* ------------------------------------------------------------------ the property-level statements *)
+Lemma p0_dt mexp p : p_dt (p0_of mexp p) = p_dt p.
+Proof. destruct (p0_keeps mexp p) as [_ [_ [_ [_ H]]]]. exact H. Qed.
+
+Lemma value_applied C c i p d en v :
+  mod_init C c = Created i -> In p (c_params C) -> p_optional p = false -> p_iscmd p = false -> p_dt p = Some d ->
+  assoc_str (p_name p) c = Some (CDict en) -> NoDup (map fst en) -> In (k_value, v) en ->
+  exists p' d' c1, In p' (i_params i) /\ p_name p' = p_name p /\ p_dt p' = Some d' /\ (forall x, conv d x = conv d' x) /\
+    conv d v = Ok c1 /\ p_value p' = match conv d c1 with Ok c2 => Some c2 | Err _ => None end /\
+    (p_has_write p = true -> In (p_name p, v) (i_write i)).
+Proof.
+  intros H Hin Ho Hc Hd Hcfg ND Hv.
+  destruct (created_param _ _ _ _ H Hin Ho Hc) as [mv [a [p1 [y [p' [Hs [He [Hh [Hf [Hp' [N1 [D1 [V1 [_ [_ [_ Hw]]]]]]]]]]]]]]]].
+  rewrite Hcfg in He.
+  assert (Hc0 : p_iscmd (p0_of (mexport mv) p) = false).
+  { destruct (p0_keeps (mexport mv) p) as [K _]. rewrite (k_cmd _ _ K). exact Hc. }
+  destruct (entry_inv _ _ _ Hc0 He) as [K [Cv [_ Vv]]].
+  pose proof (Vv v ND Hv) as Hval.
+  destruct (Cv k_value v d Hv) as [c1 Hc1]; [vm_compute; reflexivity|rewrite p0_dt; exact Hd|].
+  destruct (handle_writes_ok _ _ _ Hh) as [d1 [Hd1 [_ [Hd2 [Hn2 [Hc2 [_ Hm]]]]]]].
+  rewrite Hval in Hm. destruct Hm as [Hv2 Hw2].
+  pose proof (k_dt _ _ K) as Hq. rewrite p0_dt, Hd, Hd1 in Hq. simpl in Hq.
+  assert (Hca : p_iscmd (a_param a) = false).
+  { rewrite Hc2, (k_cmd _ _ K). exact Hc0. }
+  destruct (finish_param_ok _ _ Hca Hf) as [Fn [Fd [_ [_ Fr]]]].
+  exists p', d1, c1. split; [exact Hp'|]. split; [|split; [|split; [exact Hq|split; [exact Hc1|split]]]].
+  - rewrite N1, Fn, Hn2, (k_name _ _ K). destruct (p0_keeps (mexport mv) p) as [K0 _]. apply (k_name _ _ K0).
+  - rewrite D1, Fd. exact Hd2.
+  - rewrite V1. rewrite Hd2, Hv2 in Fr. rewrite <- Hq, Hc1 in Fr. unfold refit in Fr. rewrite <- Hq in Fr.
+    destruct (conv d c1) as [c2|e]; [inversion Fr; reflexivity|]. destruct (is_bad_value e); [inversion Fr; reflexivity|discriminate].
+  - intros Hhw. assert (a_write a = Some v) as Hwa.
+    { rewrite Hw2, (k_hw _ _ K). destruct (p0_keeps (mexport mv) p) as [K0 _]. rewrite (k_hw _ _ K0), Hhw. reflexivity. }
+    apply Hw in Hwa. rewrite Hn2, (k_name _ _ K) in Hwa. destruct (p0_keeps (mexport mv) p) as [K0 _].
+    rewrite (k_name _ _ K0) in Hwa. exact Hwa.
+Qed.
+
+Lemma unknown_name_rejected C c k i :
+  In k (map fst c) -> mem_str k (known_names C) = false -> mod_init C c <> Created i.
+Proof.
+  intros Hin Hk H. destruct (created_inv _ _ _ H) as [mv [accs [ps [_ [_ [_ [EU _]]]]]]].
+  unfold unknown_names in EU. assert (In k (filter (fun k0 => negb (mem_str k0 (known_names C))) (map fst c))).
+  { apply filter_In. split; [exact Hin|]. rewrite Hk. reflexivity. }
+  rewrite EU in H0. destruct H0.
+Qed.
+
+Lemma wrong_type_rejected C c i p d en k v e :
+  In p (c_params C) -> p_optional p = false -> p_iscmd p = false -> p_dt p = Some d ->
+  assoc_str (p_name p) c = Some (CDict en) -> In (k, v) en -> mem_str k checked_value_props = true ->
+  conv d v = Err e -> mod_init C c <> Created i.
+Proof.
+  intros Hin Ho Hc Hd Hcfg Hkv Hm Hcv H.
+  destruct (created_param _ _ _ _ H Hin Ho Hc) as [mv [a [p1 [y [p' [Hs [He _]]]]]]].
+  rewrite Hcfg in He.
+  assert (Hc0 : p_iscmd (p0_of (mexport mv) p) = false).
+  { destruct (p0_keeps (mexport mv) p) as [K _]. rewrite (k_cmd _ _ K). exact Hc. }
+  destruct (entry_inv _ _ _ Hc0 He) as [_ [Cv _]].
+  destruct (Cv k v d Hkv Hm) as [c1 Hc1]; [rewrite p0_dt; exact Hd|]. rewrite Hcv in Hc1. discriminate.
+Qed.
+
+Lemma raw_section_rejected C c i p v :
+  In p (c_params C) -> p_optional p = false -> p_iscmd p = false ->
+  assoc_str (p_name p) c = Some (CRaw v) -> mod_init C c <> Created i.
+Proof.
+  intros Hin Ho Hc Hcfg H.
+  destruct (created_param _ _ _ _ H Hin Ho Hc) as [mv [a [p1 [y [p' [Hs [He _]]]]]]].
+  rewrite Hcfg in He. exact He.
+Qed.
+
+Lemma missing_value_rejected C c i p :
+  In p (c_params C) -> p_optional p = false -> p_iscmd p = false -> p_needscfg p = true -> p_value p = None ->
+  assoc_str (p_name p) c = None -> mod_init C c <> Created i.
+Proof.
+  intros Hin Ho Hc Hn Hv Hcfg H.
+  destruct (created_param _ _ _ _ H Hin Ho Hc) as [mv [a [p1 [y [p' [Hs [He [Hh _]]]]]]]].
+  rewrite Hcfg in He. subst p1. destruct (handle_writes_ok _ _ _ Hh) as [d1 [_ [Hnc _]]].
+  destruct (p0_keeps (mexport mv) p) as [_ [Hv0 [Hn0 _]]]. apply Hnc; [rewrite Hn0; exact Hn|rewrite Hv0; exact Hv].
+Qed.
+
+Lemma missing_description_rejected C c i p :
+  In p (c_params C) -> p_optional p = false -> p_iscmd p = false -> p_descr p = None ->
+  assoc_str (p_name p) c = None -> mod_init C c <> Created i.
+Proof.
+  intros Hin Ho Hc Hdn Hcfg H.
+  destruct (created_param _ _ _ _ H Hin Ho Hc) as [mv [a [p1 [y [p' [Hs [He [Hh [Hf [Hp' [N1 [D1 [V1 [De1 [Cm1 [Hck _]]]]]]]]]]]]]]]].
+  rewrite Hcfg in He. subst p1. destruct (handle_writes_ok _ _ _ Hh) as [d1 [_ [_ [_ [_ [Hc2 [Hde _]]]]]]].
+  assert (Hca : p_iscmd (a_param a) = false).
+  { rewrite Hc2. destruct (p0_keeps (mexport mv) p) as [K _]. rewrite (k_cmd _ _ K). exact Hc. }
+  destruct (finish_param_ok _ _ Hca Hf) as [_ [_ [Fde _]]].
+  unfold check_param in Hck. rewrite De1, Fde, Hde in Hck.
+  destruct (p0_keeps (mexport mv) p) as [_ [_ [_ [Hd0 _]]]]. rewrite Hd0, Hdn in Hck. discriminate.
+Qed.
+
+(* limits of a parameter of a created module are never inverted - for a numeric datatype used directly *)
+Lemma no_inverted_leaf C c i p d :
+  mod_init C c = Created i -> In p (i_params i) -> p_iscmd p = false -> p_dt p = Some d -> leaf_inverted d = false.
+Proof.
+  intros H Hin Hc Hd. destruct (created_inv _ _ _ H) as [mv [accs [ps [_ [_ [_ [_ [_ [_ [ECp Ei]]]]]]]]]].
+  subst i. simpl in Hin. pose proof (flat_map_nil _ _ _ ECp Hin) as Hck. unfold check_param in Hck.
+  destruct (p_descr p); [|discriminate]. rewrite Hc, Hd in Hck. destruct (leaf_inverted d); [discriminate|reflexivity].
+Qed.
+
+Lemma created_has_description C c i p : mod_init C c = Created i -> In p (i_params i) -> p_descr p <> None.
+Proof.
+  intros H Hin. destruct (created_inv _ _ _ H) as [mv [accs [ps [_ [_ [_ [_ [_ [_ [ECp Ei]]]]]]]]]].
+  subst i. simpl in Hin. pose proof (flat_map_nil _ _ _ ECp Hin) as Hck. unfold check_param in Hck.
+  destruct (p_descr p); [discriminate|discriminate].
+Qed.
+
+(* ------------------------------------------------------------------ writeDict has one entry per parameter name *)
+Lemma cmd_setprop_name p k v p' : cmd_setprop p k v = PGo p' -> p_name p' = p_name p.
+Proof.
+  unfold cmd_setprop. destruct (pprop_type command_props k); [|discriminate].
+  destruct (mp_validate m v) as [x|e]; [|destruct e; discriminate].
+  destruct (str_eqb k k_visibility). { destruct x; try discriminate; intros H; inversion H; reflexivity. }
+  destruct (str_eqb k k_group). { destruct x; try discriminate; intros H; inversion H; reflexivity. }
+  destruct (str_eqb k k_description). { destruct x; try discriminate; intros H; inversion H; reflexivity. }
+  destruct (str_eqb k k_export). { destruct x; try discriminate; intros H; inversion H; reflexivity. }
+  discriminate.
+Qed.
+
+Lemma prop_step_name p kv p' : prop_step (PGo p) kv = PGo p' -> p_name p' = p_name p.
+Proof.
+  destruct kv as [k v]. intros H. destruct (p_iscmd p) eqn:Hc.
+  - unfold prop_step in H. rewrite Hc in H. destruct (mem_str k checked_value_props); [discriminate|].
+    eapply cmd_setprop_name; exact H.
+  - apply (prop_step_inv _ _ _ _ Hc) in H. destruct H as [K _]. exact (k_name _ _ K).
+Qed.
+
+Lemma apply_entry_keep_name : forall en p pk r, apply_entry_keep p en = (pk, r) -> p_name pk = p_name p.
+Proof.
+  induction en as [|kv en IH]; intros p pk r H; [simpl in H; inversion H; reflexivity|].
+  rewrite apply_entry_keep_cons in H. destruct (prop_step (PGo p) kv) eqn:E; try (inversion H; reflexivity).
+  rewrite (IH _ _ _ H). eapply prop_step_name; exact E.
+Qed.
+
+Lemma handle_writes_name p : p_name (fst (fst (handle_writes p))) = p_name p.
+Proof.
+  unfold handle_writes. destruct (p_dt p); [|reflexivity]. destruct (p_value p); [reflexivity|].
+  destruct (p_default p); reflexivity.
+Qed.
+
+Lemma acc_step_name mexp p e a : acc_step mexp p e = Some a -> p_name (a_param a) = p_name p.
+Proof.
+  unfold acc_step. fold (p0_of mexp p).
+  assert (N0 : p_name (p0_of mexp p) = p_name p) by (destruct (p0_keeps mexp p) as [K _]; exact (k_name _ _ K)).
+  destruct e as [[v|en]|]; [discriminate| |].
+  - destruct (apply_entry_keep (p0_of mexp p) en) as [pk r] eqn:E.
+    pose proof (apply_entry_keep_name _ _ _ _ E) as Nk.
+    destruct r as [|er|p1]; [discriminate| |].
+    + destruct (p_iscmd pk); [intros H; inversion H; simpl; congruence|].
+      pose proof (handle_writes_name pk) as Nh. destruct (handle_writes pk) as [[p2 es] w]. simpl in Nh.
+      intros H; inversion H; simpl; congruence.
+    + pose proof (apply_entry_keep_go _ _ _ _ E). subst pk.
+      destruct (p_iscmd p1); [intros H; inversion H; simpl; congruence|].
+      pose proof (handle_writes_name p1) as Nh. destruct (handle_writes p1) as [[p2 es] w]. simpl in Nh.
+      intros H; inversion H; simpl; congruence.
+  - cbv beta iota zeta. destruct (p_iscmd (p0_of mexp p)); [intros H; inversion H; simpl; congruence|].
+    pose proof (handle_writes_name (p0_of mexp p)) as Nh. destruct (handle_writes (p0_of mexp p)) as [[p2 es] w]. simpl in Nh.
+    intros H; inversion H; simpl; congruence.
+Qed.
+
+Definition active (ps : list param) : list param := filter (fun p => negb (p_optional p)) ps.
+
+Lemma phaseB_names mexp c : forall ps accs, phaseB mexp ps c = Some accs ->
+  map (fun a => p_name (a_param a)) accs = map p_name (active ps).
+Proof.
+  induction ps as [|p ps IH]; intros accs H; simpl in H; [inversion H; reflexivity|].
+  unfold active. simpl. destruct (p_optional p); simpl; [apply IH; exact H|].
+  destruct (acc_step mexp p (assoc_str (p_name p) c)) as [a|] eqn:E; [|discriminate].
+  destruct (phaseB mexp ps c) as [l|]; [|discriminate]. inversion H; subst. simpl.
+  rewrite (acc_step_name _ _ _ _ E). f_equal. apply IH. reflexivity.
+Qed.
+
+Lemma writes_of_nodup accs : NoDup (map (fun a => p_name (a_param a)) accs) -> NoDup (map fst (writes_of accs)).
+Proof.
+  unfold writes_of. induction accs as [|a accs IH]; simpl; intros ND; [constructor|]. inversion ND; subst.
+  rewrite map_app. destruct (a_write a); simpl; [|apply IH; exact H2]. constructor; [|apply IH; exact H2].
+  intros Hin. apply H1. clear - Hin. induction accs as [|b accs IH]; simpl in *; [exact Hin|].
+  rewrite map_app in Hin. apply in_app_or in Hin. destruct Hin as [Hin|Hin].
+  - destruct (a_write b); simpl in Hin; [destruct Hin as [Hin|[]]; left; exact Hin|destruct Hin].
+  - right. apply IH. exact Hin.
+Qed.
+
+Lemma created_write_nodup C c i : mod_init C c = Created i -> NoDup (map p_name (active (c_params C))) ->
+  NoDup (map fst (i_write i)).
+Proof.
+  intros H ND. destruct (created_inv _ _ _ H) as [mv [accs [ps [_ [EB [_ [_ [_ [_ [_ Ei]]]]]]]]]]. subst i. simpl.
+  apply writes_of_nodup. rewrite (phaseB_names _ _ _ _ EB). exact ND.
 Qed.
